@@ -4,7 +4,13 @@ go 1.25.0
 
 require (
 	github.com/wundergraph/graphql-go-tools/execution v0.0.0
-	github.com/wundergraph/graphql-go-tools/v2 v2.0.0
+	github.com/wundergraph/graphql-go-tools/v2 v2.4.4
+)
+
+require (
+	github.com/buger/jsonparser v1.1.2 // indirect
+	github.com/cespare/xxhash/v2 v2.3.0 // indirect
+	github.com/wundergraph/go-arena v1.3.0 // indirect
 )
 
 replace github.com/wundergraph/graphql-go-tools/v2 => /repo/v2
